@@ -94,7 +94,10 @@ ItR(items, exc) == [items |-> items, exc |-> exc]         \* an iteration
 \* Exceptions raised by user functions (fault injection); everything else
 \* is raised by the library itself ("structural").
 UserExc == {"FilterException", "SubFilterException", "UserValueError",
-            "UserKeyError", "UserBaseException"}
+            "UserKeyError", "UserIndexError", "UserBaseException"}
+\* `except IndexError` in the library (BatchDataset probing for the end of its
+\* input) also catches a user function's IndexError subclass
+IsIndexErr(c) == c \in {"IndexError", "UserIndexError"}
 \* class hierarchy of the user exceptions
 IsSub(c, base) ==
   \/ c = base
@@ -102,12 +105,13 @@ IsSub(c, base) ==
   \/ base = "Exception" /\ c # "UserBaseException"
   \/ base = "FilterException" /\ c = "SubFilterException"
 \* catalogue of `exceptions=` arguments of catch / catch_filter_exception
-CatchSets == {"Filter", "FilterOrValue", "Exception", "UserKey"}
+CatchSets == {"Filter", "FilterOrValue", "Exception", "UserKey", "Lookup"}
 Catches(E, c) ==
   CASE E = "Filter"        -> IsSub(c, "FilterException")
     [] E = "FilterOrValue" -> IsSub(c, "FilterException") \/ c = "UserValueError"
     [] E = "Exception"     -> c \in UserExc /\ IsSub(c, "Exception")
     [] E = "UserKey"       -> c = "UserKeyError"
+    [] E = "Lookup"        -> c \in {"UserKeyError", "UserIndexError"}     \* LookupError
     [] OTHER               -> FALSE
 
 -----------------------------------------------------------------------------
